@@ -83,6 +83,12 @@ def to_z3(v):
         if math.isnan(f) or math.isinf(f):
             raise Abort("non-finite constant %r meets a symbolic value" % f)
         fr = fractions.Fraction(f)
+        # a double that is the rounding of a simple rational (1/3, 0.1, 3.14159) is read as that rational: generated
+        # code prints sympy's exact Rational(1, 3) as the Python expression 1/3; the difference is one ulp, i.e.
+        # rounding-level, which every claim already excludes
+        snap = fr.limit_denominator(10 ** 6)
+        if snap != fr and abs(float(snap) - f) <= 4e-16 * max(1.0, abs(f)):
+            fr = snap
         return z3.RealVal("%d/%d" % (fr.numerator, fr.denominator))
     if z3.is_expr(v):
         return v
@@ -1264,7 +1270,13 @@ def close(a, b, ctxobj, tol=None):
         if isinstance(a, Sym) or isinstance(b, Sym):
             r = (a == b) if isinstance(a, Sym) else (b == a)
             return r
-        return bool(a == b)
+        # two plain numbers met on a symbolic path (a constant entry such as -0.04 of a Jacobian): a float is the
+        # rounding of the exact rational the oracle carries
+        try:
+            fa, fb = float(a), float(b)
+            return fa == fb or abs(fa - fb) <= 1e-12 * (1.0 + max(abs(fa), abs(fb)))
+        except (TypeError, ValueError):
+            return bool(a == b)
     tol = ctxobj.tol if tol is None else tol
     a, b = float(a), float(b)
     if a == b:          # also equal infinities
